@@ -171,8 +171,23 @@ def _assert_tree():
         raise SystemExit('harness error: yaml imported from %s, expected under %s/lib' % (f, repo))
 
 
+WORKER_MEM_GB = float(os.environ.get('VERIF_WORKER_MEM_GB', '3'))
+
+
+def _limit_memory():
+    """a runaway allocation in the code under test must end in MemoryError inside the worker (reported as a violation by
+    the check that sees it), not in the machine running out of memory"""
+    try:
+        import resource
+        lim = int(WORKER_MEM_GB * (1 << 30))
+        resource.setrlimit(resource.RLIMIT_AS, (lim, lim))
+    except Exception:
+        pass
+
+
 def _worker_main(modname, conn):
     signal.signal(signal.SIGINT, signal.SIG_IGN)
+    _limit_memory()
     try:
         _assert_tree()
         mod = __import__(modname, fromlist=['x'])
@@ -357,6 +372,7 @@ def isolate(modname, job, why, log=print):
     code = ('import sys, json, pickle\n'
             'from vf import engine\n'
             'engine._assert_tree()\n'
+            'engine._limit_memory()\n'
             'mod = __import__(%r, fromlist=["x"])\n'
             'getattr(mod, "worker_init", lambda: None)()\n'
             'T = engine.Tally(trace_path=%r, pid=mod.ID)\n'
